@@ -36,13 +36,14 @@ def propagated(fn, c):
     """Is the Result of call c propagated with `?` (its Err outcome returns from the function)?"""
     if c.dest is None or c.target is None:
         return False
-    return propagated_local(fn, c.dest["l"], c.block)
+    return propagated_local(fn, c.dest["l"], c.block, strict=True)
 
 
-def propagated_local(fn, dl, from_block):
-    """Is the Result held in local dl (defined in from_block) propagated with `?` or returned?"""
+def propagated_local(fn, dl, from_block, strict=False):
+    """Is the Result held in local dl (defined in from_block) propagated with `?` or returned?  strict: the definition has to
+    dominate the `?` (a call result); otherwise it only has to reach it (one arm of a spliced helper's return)."""
     alias = {dl}
-    for _ in range(3):      # plain copies of the result (`dest = move ret` of a spliced helper)
+    for _ in range(0 if strict else 3):      # plain copies of the result (`dest = move ret` of a spliced helper)
         for b in fn.live:
             for st in fn.blocks[b]["s"]:
                 a = st["rv"].get("a") if st["rv"]["k"] == "use" else None
@@ -55,7 +56,7 @@ def propagated_local(fn, dl, from_block):
     for c2 in fn.calls():
         if (c2.declared or "").endswith("::branch") and c2.args:
             pl = c2.args[0].get("move") or c2.args[0].get("copy")
-            if pl is not None and pl["l"] in alias and (fn.dominates(from_block, c2.block) or c2.block in fn.reach([from_block])):
+            if pl is not None and pl["l"] in alias and (fn.dominates(from_block, c2.block) or (not strict and c2.block in fn.reach([from_block]))):
                 # the switch on the branch result: Break edge must lead to a return without local calls
                 S = c2.target
                 while S is not None and fn.blocks[S]["t"]["k"] == "goto":
